@@ -213,7 +213,11 @@ fn tag_claim(kw: &str, config: Config, text: &str) -> Claim {
     if matches!(kw, "else" | "elsif" | "when" | "endif" | "endfor" | "endcase" | "endraw" | "endcomment") {
         return Claim::MustReject("end/else/when tag without opener");
     }
-    let _ = text;
+    // `| frobfilter` anywhere in the arguments of a tag that reads its arguments: whether or not the position
+    // allows a filter chain, a filter nobody registered cannot be accepted (quotes could hide the pipe: no claim then)
+    if !matches!(kw, "raw" | "comment" | "break" | "continue" | "ifchanged") && !text.contains('\'') && !text.contains('"') && text.contains(&format!("| {UNKNOWN_FILTER}")) {
+        return Claim::MustReject("unknown filter in a tag argument");
+    }
     Claim::NoClaim
 }
 
